@@ -197,7 +197,15 @@ def inverse_root_selection(ctx, rep, rule: str) -> None:
             c = calls[0]
             lam = A.arg_of(c, fi, params[2])
             a0, a1 = A.arg_of(c, fi, params[0]), A.arg_of(c, fi, params[1])
-            fwd = a0 is not None and a1 is not None and ast.unparse(a0) == m_.params[-2] and ast.unparse(a1) == m_.params[-1]
+            # the override is the list's own (the method's parameter fed from self._inv_root_override by its caller, or that
+            # attribute read directly); the orders are the method's order-list parameter
+            def src(a):
+                if a is None:
+                    return set()
+                if isinstance(a, ast.Name) and a.id in m_.params:
+                    return A.argument_sources(repo, m_, a.id) or {a.id}
+                return {A.expanded(m_.node, a)}
+            fwd = src(a0) == {"self._inv_root_override"} and src(a1) == {"self._local_order_list"}
             vals = None
             if isinstance(lam, ast.Lambda) and len(lam.args.args) == 1:
                 try:
@@ -261,11 +269,17 @@ def _effect_order(ctx, rep) -> None:
         for role, q in ROLES.items():
             if q in callees:
                 role_calls.setdefault(role, []).append(c)
-        if any(q.endswith(".update_params") for q in callees):
+        if any(q.replace(":", ".").endswith(".update_params") for q in callees):
             role_calls.setdefault("APPLY", []).append(c)
     # the direction variable = the single name bound to PRE's result
+    # a stage whose private helper no longer exists has been merged into the group step: its place in the order is then decided
+    # by the term comparison of the whole group step (C01.6), which interprets the merged code where it stands
+    merged = {role for role, q in ROLES.items() if q not in repo.funcs and role not in ("PRE", "FILT")}
     for role in list(ROLES) + ["APPLY"]:
         n = len(role_calls.get(role, []))
+        if role in merged and n == 0:
+            rep.notes.setdefault("stages merged into _per_group_step_impl (ordered by C01.6)", []).append(role)
+            continue
         if n != 1:
             raise AnalysisError(f"C01.2: expected exactly one call in _per_group_step_impl resolving to role {role}, found {n}")
     def bound_name(call):
@@ -284,6 +298,8 @@ def _effect_order(ctx, rep) -> None:
     role_calls["SCALE"] = scale
     nodes = {r: cfg.node_of(cs[0]) for r, cs in role_calls.items()}
     for a, b in ORDER:
+        if a not in nodes or b not in nodes:
+            continue
         ok = nodes[a] is not None and nodes[b] is not None and nodes[a] is not nodes[b] and cfg.dominates(nodes[a], nodes[b])
         rep.ob("C01.2", f"order:{a}<{b}", ok, impl.loc(role_calls[b][0]), f"{a} must precede {b} on every path: {ORDER_WHY[(a, b)]}", sample=True)
     # single assignment of the direction / filtered variables
@@ -299,6 +315,8 @@ def _effect_order(ctx, rep) -> None:
         return A.arg_of(call, callee, formal)
     flows = [("PRE", "masked_filtered_grad_list", filt), ("DWD", "masked_blocked_search_directions", dirs), ("MOM", "masked_blocked_search_directions", dirs), ("APPLY", "masked_blocked_search_directions", dirs)]
     for role, formal, want in flows:
+        if role not in role_calls:
+            continue
         a = actual(role, formal)
         ok = isinstance(a, ast.Name) and a.id == want
         rep.ob("C01.2", f"flow:{role}.{formal}", ok, impl.loc(role_calls[role][0]), f"{role} must receive `{want}` as `{formal}`; it receives `{ast.unparse(a) if a is not None else '<missing>'}`", sample=True)
@@ -313,7 +331,7 @@ def _effect_order(ctx, rep) -> None:
         raise AnalysisError(f"C01.2: unrecognised scaling factor `{ast.unparse(factor) if factor is not None else None}` for the direction list")
     # complementary guards of coupled / decoupled weight decay, and state-creation guards
     rep.attempt("_guard_tables", _guard_tables, ctx, rep)
-    rep.floor("C01.2", "_per_group_step_impl roles", len(role_calls), 8)
+    rep.floor("C01.2", "_per_group_step_impl roles", len(role_calls) + len(merged), 8)
 
 
 def _first_write_guard(ctx, fq: str, pred) -> tuple[list, ast.AST] | None:
@@ -336,12 +354,16 @@ def _guard_tables(ctx, rep) -> None:
     def writes_kind(k):
         return lambda w: any(k in kinds.get(t, ()) for t in w.dst)
 
-    l2 = _first_write_guard(ctx, ROLES["L2"], lambda w: GRAD in w.dst)
-    dwd = _first_write_guard(ctx, ROLES["DWD"], lambda w: True)
-    if l2 is None or dwd is None:
-        raise AnalysisError("C01.2: weight-decay write sites not found")
+    if ROLES["L2"] not in ctx.repo.funcs or ROLES["DWD"] not in ctx.repo.funcs:
+        rep.notes["weight-decay guards"] = "helpers merged into the group step: decided by the term comparison C01.6 (weight_decay x decoupled cases)"
+        l2 = dwd = None
+    else:
+        l2 = _first_write_guard(ctx, ROLES["L2"], lambda w: GRAD in w.dst)
+        dwd = _first_write_guard(ctx, ROLES["DWD"], lambda w: True)
+        if l2 is None or dwd is None:
+            raise AnalysisError("C01.2: weight-decay write sites not found")
     bad = []
-    for wd, dec in itertools.product([0.0, 0.1], [True, False]):
+    for wd, dec in (itertools.product([0.0, 0.1], [True, False]) if l2 is not None else []):
         env = {"weight_decay": wd, "use_decoupled_weight_decay": dec}
         try:
             f_l2, f_dwd = eval_conds(l2[0], env), eval_conds(dwd[0], env)
@@ -350,7 +372,8 @@ def _guard_tables(ctx, rep) -> None:
         want_l2, want_dwd = (wd != 0 and not dec), (wd != 0 and dec)
         if (f_l2, f_dwd) != (want_l2, want_dwd):
             bad.append((wd, dec, f_l2, f_dwd))
-    rep.ob("C01.2", "guards:weight-decay-mode", not bad, ctx.repo.func(ROLES["L2"]).loc(l2[1]), "coupled decay fires iff weight_decay != 0 and not decoupled; decoupled decay iff weight_decay != 0 and decoupled" + (f"; disagreement at (weight_decay, decoupled)={bad[0][:2]}: coupled={bad[0][2]}, decoupled={bad[0][3]}" if bad else ""), sample=True)
+    if l2 is not None:
+      rep.ob("C01.2", "guards:weight-decay-mode", not bad, ctx.repo.func(ROLES["L2"]).loc(l2[1]), "coupled decay fires iff weight_decay != 0 and not decoupled; decoupled decay iff weight_decay != 0 and decoupled" + (f"; disagreement at (weight_decay, decoupled)={bad[0][:2]}: coupled={bad[0][2]}, decoupled={bad[0][3]}" if bad else ""), sample=True)
     for role, kind, formal in (("MOM", "momentum", "momentum_param"), ("FILT", "filtered_grad", "beta1")):
         g = _first_write_guard(ctx, ROLES[role], writes_kind(kind))
         if g is None:
@@ -375,7 +398,7 @@ def _amortized_guard(ctx, rep) -> None:
     cfg = CFG(base_up.node)
     sites = []
     for c in A.calls(base_up.node):
-        if any(q.endswith("._amortized_computation") for q in pts.callees(base_up.qual, c)):
+        if any(q.replace(":", ".").endswith("._amortized_computation") for q in pts.callees(base_up.qual, c)):
             sites.append(c)
     rep.floor("C01.3", "update_preconditioners -> _amortized_computation", len(sites), 1)
     for c in sites:
@@ -391,7 +414,7 @@ def _amortized_guard(ctx, rep) -> None:
                 ok = False
         rep.ob("C01.3", "refresh-only-under-flag", ok, base_up.loc(c), "`_amortized_computation()` must be control-dependent on exactly the `perform_amortized_computation` flag", sample=True)
     # every other caller of an _amortized_computation must be one of these sites
-    others = [(q, i) for (q, i), cs in pts.calls.items() if any(x.endswith("._amortized_computation") for x in cs) and q != base_up.qual]
+    others = [(q, i) for (q, i), cs in pts.calls.items() if any(x.replace(":", ".").endswith("._amortized_computation") for x in cs) and q != base_up.qual]
     rep.ob("C01.3", "refresh-single-call-site", not others, base_up.loc(), f"amortized computation is invoked only from update_preconditioners (other callers: {[short(q) for q, _ in others]})")
     # the flag is forwarded unchanged: step() -> _per_group_step_impl -> _update_preconditioners -> update_preconditioners
     chain = [(f"{DS}._per_group_step_impl", ROLES["UPD"]), (ROLES["UPD"], "update_preconditioners")]
@@ -423,7 +446,7 @@ def _step_counter(ctx, rep) -> None:
     cfg = CFG(step.node)
     incs = [w for w in pts.writes if w.func == step.qual and any("step" in kinds.get(t, ()) for t in w.dst)]
     rep.floor("C01.4", "step() increments STEP", len(incs), 1)
-    group_calls = [c for c in A.calls(step.node) if any(q.endswith("._per_group_step_impl") for q in pts.callees(step.qual, c))]
+    group_calls = [c for c in A.calls(step.node) if any(q.replace(":", ".").endswith("._per_group_step_impl") for q in pts.callees(step.qual, c))]
     rep.floor("C01.4", "step() calls the group step", len(group_calls), 1)
     ok_once = len(incs) == 1
     detail = f"{len(incs)} in-place write(s) to the group step counter in step()"
